@@ -33,16 +33,19 @@ theorem restore_id (h' h : DHeap F R) (s d : Nat) (hj : ∀ j, j ≠ d → h' j 
       apply Dat.ext' <;> simp [this]
     · simp [hjd, hjs, hj j hjd]
 
-/-- what the body after the `defer` leaves: the heap as found, or with the WGS84 constants in `a`/`es` of `dest` -/
+theorem restoreSrc_id (h : DHeap F R) (s : Nat) : restoreSrc h s (h s).a (h s).es = h := by
+  funext j
+  unfold restoreSrc
+  simp only [DHeap.set]
+  by_cases hjs : j = s
+  · subst hjs; simp
+  · simp [hjs]
+
+/-- the body after the `defer` writes nothing (fix 70faba2): the heap DURING the call is the heap before it -/
 theorem dtAfterDefer_heap (o : DOps F R Err) (h : DHeap F R) (s d : Nat) (v : F × F × F) :
-    (dtAfterDefer o h s d v).1 = h ∨
-    (dtAfterDefer o h s d v).1 = h.set d { h d with a := o.wgsA, es := o.wgsEs } := by
+    (dtAfterDefer o h s d v).1 = h := by
   unfold dtAfterDefer
-  by_cases h3 : (h s).dtype = 3
-  · simp [h3]
-  · by_cases hd : (h d).dtype = 3
-    · right; simp [h3, hd]
-    · left; simp [h3, hd]
+  split <;> rfl
 
 theorem datumTransformM_heap (o : DOps F R Err) (h : DHeap F R) (s d : Nat) (v : F × F × F) :
     (datumTransformM o h s d v).1 = h := by
@@ -52,14 +55,10 @@ theorem datumTransformM_heap (o : DOps F R Err) (h : DHeap F R) (s d : Nat) (v :
   · rfl
   · split
     · rfl
-    · show restore _ s d (h s).a (h s).es (h d).a (h d).es = h
-      rcases dtAfterDefer_heap o h s d v with e | e
-      · rw [e]; exact restore_id h h s d (fun _ _ => rfl) rfl rfl
-      · rw [e]
-        apply restore_id
-        · intro j hj; simp [DHeap.set, hj]
-        · simp [DHeap.set]
-        · simp [DHeap.set]
+    · simp only [dtAfterDefer_heap]
+      split
+      · exact restoreSrc_id h s
+      · exact restore_id h h s d (fun _ _ => rfl) rfl rfl
 
 theorem datumTransformM_result (o : DOps F R Err) (h : DHeap F R) (s d : Nat) (v : F × F × F) :
     (datumTransformM o h s d v).2 = datumTransformPure o (h s) (h d) v := by
@@ -79,9 +78,7 @@ theorem datumTransformM_result (o : DOps F R Err) (h : DHeap F R) (s d : Nat) (v
         by_cases h3 : (h s).dtype = 3
         · simp [h3]
         · by_cases hd : (h d).dtype = 3
-          · -- dest is a grid-shift datum: s ≠ d (else source would be one too)
-            have hsd : s ≠ d := by intro e; subst e; exact h3 hd
-            simp [h3, hd, DHeap.set, hsd]
+          · simp [h3, hd]
           · simp [h3, hd]
 
 theorem runDatum_heap (o : DOps F R Err) (h : DHeap F R) (l : List (Nat × Nat × (F × F × F))) :
